@@ -70,15 +70,21 @@ Definition is_registry (p : String.string * String.string) : bool := String.eqb 
    - a sorter keeps the ranking function it is given (Sorter.MakeWithRanker); rankers are handed down
      catalog -> list -> array -> sorter; the collator hands its own per-call traversal copy's
      rankValues to the sorter it makes for map keys (receiver of rankMaps);
-   - a set keeps the collator it is given; Set.And/Or/Sans/Xor hand the first operand's collator
-     (GetCollator) to the result: harmless since fix 4091d12 (CompareValues/RankValues work on a
+   - a set keeps the collator it is given; Set.And/Or/Sans hand the collator FIELD of their first operand
+     to the result (the summaries of the analysis see through GetCollator), Xor hands its operands on to
+     Sans and the collators of the intermediate results on to Or: harmless since fix 4091d12 (CompareValues/RankValues work on a
      per-call copy: [static_collator_shares_depth] below is false); module.Set forwards its argument;
    - the scanner keeps the token queue of the parser that started it (a synchronised queue: C04/C05). *)
 Definition expected_shared_edges : list (String.string * String.string) := [
   ("agent.iterator_.values_", "arg 1:values of agent.(*iteratorClass_).MakeFromArray");
   ("agent.sorter_.ranker_", "arg 1:ranker of agent.(*sorterClass_).MakeWithRanker");
   ("arg 1:collator of collection.(*setClass_).MakeWithCollator", "arg 1:arguments of module.Set");
-  ("arg 1:collator of collection.(*setClass_).MakeWithCollator", "result of GetCollator");
+  ("arg 1:collator of collection.(*setClass_).MakeWithCollator", "arg 1:first of collection.(*setClass_).And field collection.set_.collator_");
+  ("arg 1:collator of collection.(*setClass_).MakeWithCollator", "arg 1:first of collection.(*setClass_).Or field collection.set_.collator_");
+  ("arg 1:collator of collection.(*setClass_).MakeWithCollator", "arg 1:first of collection.(*setClass_).Sans field collection.set_.collator_");
+  ("arg 1:first of collection.(*setClass_).Or", "arg 1:first of collection.(*setClass_).Xor field collection.set_.collator_");
+  ("arg 1:first of collection.(*setClass_).Sans", "arg 1:first of collection.(*setClass_).Xor");
+  ("arg 1:first of collection.(*setClass_).Sans", "arg 2:second of collection.(*setClass_).Xor");
   ("arg 1:ranker of agent.(*sorterClass_).MakeWithRanker", "arg 1:ranker of collection.(array_).SortValuesWithRanker");
   ("arg 1:ranker of agent.(*sorterClass_).MakeWithRanker", "receiver of agent.(*collator_).rankMaps");
   ("arg 1:ranker of collection.(*list_).SortValuesWithRanker", "arg 1:ranker of collection.(*catalog_).SortValuesWithRanker");
@@ -90,7 +96,8 @@ Definition expected_shared_edges : list (String.string * String.string) := [
 
 (* Functions that write through something that is neither their receiver nor memory allocated in the
    call.  Reviewed: the sorter works in place on the caller's Go array (that array is the caller's
-   instance cell); Queue.Fork/Split consume their input queue (a synchronised queue, in a goroutine);
+   instance cell); Scanner.Make starts the goroutine that feeds the parser's token queue (kept in the new
+   scanner: a synchronised queue); Queue.Fork/Split consume their input queue (a synchronised queue, in a goroutine);
    module.Queue/Stack append to a slice that the flow-insensitive analysis cannot separate from the
    caller's argument (in fact it is re-made before the append). *)
 Definition expected_escapes : list (String.string * String.string) := [
@@ -99,6 +106,7 @@ Definition expected_escapes : list (String.string * String.string) := [
   ("agent.(*sorter_).SortValues", "parameter 1");
   ("agent.(*sorter_).mergeArrays", "parameter 3");
   ("agent.(*sorter_).sortValues", "parameter 1");
+  ("cdcn.(*scannerClass_).Make", "parameter 2");
   ("collection.(*queueClass_).Fork", "parameter 2");
   ("collection.(*queueClass_).Split", "parameter 2");
   ("module.Queue", "parameter 1");
